@@ -23,7 +23,8 @@ RULE = (
     "from the RDKit generator imported and renamed in the model; (ez) "
     "the organic source half of the time with regenerated bond orders and "
     "with a pool of stereogenic P(V) / S(VI) / S(IV) / N-oxide centres; "
-    "organic molecules with isolated C=C, C=N and N=N bonds (lone-pair "
+    "organic molecules with isolated C=C, C=N and N=N bonds, also inside "
+    "three-membered rings (lone-pair "
     "placeholders in every position of the PlanarBond spelling) exported "
     "with generate_bond_orders=True. Oracle: back = from_rdmol(g._to_rdmol(...), "
     "use_atom_map_number=True) (also RDMol2StereoMolGraph with the other "
@@ -135,7 +136,7 @@ def gen(data: bytes):
         a = pre.get(a, a)
         c, d = tp.shuffle(subs)[:2]
         bs = chr(92)
-        kind = tp.weighted([5, 2, 2, 1])
+        kind = tp.weighted([5, 2, 2, 1, 1])
         sl = "/" if tp.chance(128) else bs
         if kind == 0:
             smi = f"{a}/C({b})=C({sl}{c}){d}"
@@ -147,6 +148,10 @@ def gen(data: bytes):
             a2 = a if a in ("C", "CC", "F", "Cl") else "C"
             c = c if c in ("C", "CC", "F", "Cl", "C(C)C") else "C"
             smi = f"{a2}/N=N{sl}{c}"
+        elif kind == 4:             # double bond in a three-membered ring
+            r_ = a if a in ("C", "F", "Cl", "CC") else "C"
+            smi = tp.pick([f"{r_}C1=NC1", f"{r_}C1=CC1", f"{r_}C1=NC1{b}",
+                           f"{r_}C1=C({b})C1", "C1=NN1C"])
         else:                       # imine written from the nitrogen
             c = c if c in ("C", "CC", "C(C)C") else "C"
             a3 = a if a in ("C", "F", "Cl", "Br", "CC", "I") else "C"
@@ -211,9 +216,12 @@ def source_graph(ctx, case):
         # keep only PlanarBonds of isolated, labelled C=C double bonds
         keep = {}
         for b in mol.GetBonds():
-            if b.GetStereo() in (Chem.BondStereo.STEREOZ,
-                                 Chem.BondStereo.STEREOE) \
-                    and not b.IsInRing() and not b.GetIsConjugated() \
+            labelled = b.GetStereo() in (Chem.BondStereo.STEREOZ,
+                                         Chem.BondStereo.STEREOE) \
+                and not b.IsInRing()
+            small_ring = b.GetBondType() == Chem.BondType.DOUBLE \
+                and b.IsInRingSize(3)
+            if (labelled or small_ring) and not b.GetIsConjugated() \
                     and b.GetBeginAtom().GetAtomicNum() in (6, 7) \
                     and b.GetEndAtom().GetAtomicNum() in (6, 7):
                 k = frozenset((ids[b.GetBeginAtomIdx()],
@@ -267,7 +275,9 @@ def _check_graph(ctx, case, g, m, bo, stage=""):
     from stereomolgraph import StereoMolGraph
     from stereomolgraph.rdmol2graph import RDMol2StereoMolGraph
     importers = [("from_rdmol", lambda x: StereoMolGraph.from_rdmol(
-        x, use_atom_map_number=True))]
+        x, use_atom_map_number=True)),
+        ("from_rdmol-incomplete", lambda x: StereoMolGraph.from_rdmol(
+            x, use_atom_map_number=True, stereo_complete=False))]
     for sc, res in IMPORT_OPTS:
         importers.append((
             f"complete={int(sc)},resonance={int(res)}",
@@ -276,7 +286,7 @@ def _check_graph(ctx, case, g, m, bo, stage=""):
                 resonance=res_, lone_pair_stereo=True)(x)))(sc, res)))
     for name, imp in importers:
         if bo is False and "resonance=1" in name or (
-                bo is False and name == "from_rdmol"):
+                bo is False and name.startswith("from_rdmol")):
             # resonance enumeration needs a sanitisable molecule; without
             # bond orders the export is connectivity only
             try:
